@@ -2,6 +2,7 @@
    the text layer - serde_json, ryu, the svg crate's writer - is modelled, not verified). *)
 From Coq Require Import ZArith NArith List Bool Reals Floats String. Import ListNotations.
 From PV Require Import Num NumR model.Tables model.Spec model.Geom model.Optimiser model.OptSpec model.Pipeline model.Svg model.Json gen.GenTables gen.GenSchema proofs.OptStruct proofs.OptLoop proofs.LatticeFacts proofs.TablesFacts proofs.PipelineFacts proofs.OutputFacts.
+From PV Require Import gen.GenFns proofs.SourceFacts.
 
 Theorem C11_json_roundtrip :
   forall s : jstate, decode (encode s) = Some s.
@@ -42,4 +43,16 @@ Theorem C11_svg_neighbour_indices :
     1%Z); (1%Z, (-1)%Z); (1%Z, 0%Z); (1%Z, 1%Z)].
 Proof. exact svg_neighbour_indices. Qed.
 Print Assumptions C11_svg_neighbour_indices.
+
+
+Theorem C11_svg_entries_are_source :
+  forall (NN : Num) (t : tf NN), emit NN t = map (tf_entry NN t) gen_svg_entries /\
+    gen_svg_format = "matrix({0} {1} {2} {3} {4} {5})"%string.
+Proof. exact svg_entries_are_source. Qed.
+Print Assumptions C11_svg_entries_are_source.
+
+Theorem C11_source_translated :
+  gen_fns_problem = ""%string.
+Proof. exact source_translated. Qed.
+Print Assumptions C11_source_translated.
 
